@@ -2,6 +2,8 @@
 
 from __future__ import annotations
 
+from ..vloop import texc
+
 import asyncio
 from typing import Any
 
@@ -116,7 +118,7 @@ def make(n_sends: int, concurrent: int, auto_reconnect: bool):
                                auto_reconnect=auto_reconnect, auto_reconnect_wait=3)
             t = w.spawn(tunnel.connect())
             loop.settle()
-            if not (t.done() and t.exception() is None):
+            if not (t.done() and texc(t) is None):
                 return [("harness:connect-failed", repr(t))]
             results: dict[int, Any] = {}
 
